@@ -43,7 +43,7 @@ class SpecFn:
         ps = [sc._toreal(lift(p).z) for p in params]
         return SReal(self.f(nz, *ps))
 
-    def at(self, n, *params):
+    def at(self, n, *params, depth=2):
         n = lift(n)
         ps = [z3.simplify(sc._toreal(lift(p).z)) for p in params]
         nz0 = z3.simplify(n.z)
@@ -72,6 +72,11 @@ class SpecFn:
                     ctx.add(z3.Implies(cond, app == sc._toreal(lift(v).z)))
                 prior.append(g)
             ctx.axiom_log.add('spec:%s (textbook recurrence, instantiated at use sites)' % self.name)
+            if depth > 1 and not z3.is_int_value(nz):
+                # also unfold the two predecessors (their guards decide applicability): the code special-cases the
+                # orders 0, 1, 2, so two levels reach the base cases from any symbolic order
+                for k in (1, 2):
+                    self.at(SInt(nz - k), *pr, depth=depth - 1)
         return SReal(app)
 
 
